@@ -25,6 +25,9 @@ struct ArchiveChecker {
 	bool any = false;
 	Verifier verify;      // optional: how an extracted file must look (default: exactly the member's data)
 	std::string extractExt = ".bin";
+	// optional: the file an extraction writes for a member whose data were `data` (default: the data themselves) - used to put a
+	// well-formed older result of the same shape at the destination beforehand
+	std::function<std::vector<uint8_t>(const Member&, const std::vector<uint8_t>&)> onDisk;
 
 	void listing() {
 		size_t count = 0;
@@ -128,7 +131,7 @@ struct ArchiveChecker {
 		std::string what;
 		// what is at the destination beforehand: nothing, a file of the same length with other content, or a file of another length
 		uint64_t pre = mix64(plan.seed, opIdx * 31 + i) % 4;
-		if (pre == 1 && !exp[i].data.empty()) { std::vector<uint8_t> decoy = digestDecoy(exp[i].data, mix64(plan.seed, opIdx * 131 + i)); disk::put(path, decoy); ctx.count("probe.extract_over_same_length_file"); }
+		if (pre == 1 && !exp[i].data.empty()) { std::vector<uint8_t> decoy = digestDecoy(exp[i].data, mix64(plan.seed, opIdx * 131 + i)); if (onDisk) decoy = onDisk(exp[i], decoy); disk::put(path, decoy); ctx.count("probe.extract_over_same_length_file"); }
 		else if (pre == 2) disk::put(path, prngBytes(plan.seed ^ opIdx, exp[i].data.size() + 1 + (plan.seed % 50)));
 		Out o = callLib(plan, [&] { if (byName) ar.ExtractFile(caseVariant(exp[i].name, variant), path); else ar.ExtractFile(i, path); }, &what);
 		std::string desc = std::string(byName ? "ExtractFile(name)" : "ExtractFile(index)") + " of member " + std::to_string(i) + " '" + exp[i].name + "'";
@@ -151,7 +154,7 @@ struct ArchiveChecker {
 		if (how == 1) arg = dir + "/";
 		else if (how == 2) arg = "./" + dir;
 		else if (how == 3) {
-			for (auto& m : exp) if (!m.data.empty() && mix64(plan.seed, fnv1a(reinterpret_cast<const uint8_t*>(m.name.data()), m.name.size())) % 2) { std::vector<uint8_t> decoy = digestDecoy(m.data, mix64(plan.seed, m.data.size() + opIdx)); disk::put(dir + "/" + fileNameOf(m), decoy); }
+			for (auto& m : exp) if (!m.data.empty() && mix64(plan.seed, fnv1a(reinterpret_cast<const uint8_t*>(m.name.data()), m.name.size())) % 2) { std::vector<uint8_t> decoy = digestDecoy(m.data, mix64(plan.seed, m.data.size() + opIdx)); if (onDisk) decoy = onDisk(m, decoy); disk::put(dir + "/" + fileNameOf(m), decoy); }
 			disk::put(dir + "/_foreign.keep", prngBytes(plan.seed, 9)); foreign = 1;
 			ctx.count("probe.extractall_into_populated_directory");
 		} else if (how >= 4) {
